@@ -61,21 +61,28 @@ def copy_repo(dst):
 
 
 def run(cmd, cwd=None, timeout=None, extra_env=None):
+    """Run a command in its own process group; on timeout the whole group is killed (cargo-kani leaves cbmc
+    grandchildren behind otherwise)."""
+    import signal
     e = env()
     if extra_env:
         e.update(extra_env)
     t0 = time.time()
+    p = subprocess.Popen(cmd, cwd=cwd, env=e, stdout=subprocess.PIPE, stderr=subprocess.STDOUT, text=True, errors="replace",
+                         start_new_session=True)
     try:
-        p = subprocess.run(
-            cmd, cwd=cwd, env=e, stdout=subprocess.PIPE, stderr=subprocess.STDOUT, timeout=timeout, text=True,
-            errors="replace",
-        )
-        return p.returncode, p.stdout, time.time() - t0
-    except subprocess.TimeoutExpired as ex:
-        out = ex.stdout or ""
-        if isinstance(out, bytes):
-            out = out.decode("utf-8", "replace")
-        return -9, out + "\n[verif] TIMEOUT after %ss\n" % timeout, time.time() - t0
+        out, _ = p.communicate(timeout=timeout)
+        return p.returncode, out, time.time() - t0
+    except subprocess.TimeoutExpired:
+        try:
+            os.killpg(p.pid, signal.SIGKILL)
+        except Exception:
+            p.kill()
+        try:
+            out, _ = p.communicate(timeout=30)
+        except Exception:
+            out = ""
+        return -9, (out or "") + "\n[verif] TIMEOUT after %ss\n" % timeout, time.time() - t0
 
 
 def log(*a):
